@@ -2,13 +2,10 @@
 (* Specification -> implementation: the bounded domain of field sequences, defined here and  *)
 (* emitted by TLC (one JSON line per sequence) as the case file the harness replays on the   *)
 (* real DataFieldSet.  One state = one field sequence with P's fold result.                  *)
-(* Domain = all P-specified sequences of 1..FullLen fields over NK kinds x {m, s}            *)
-(*          + all P-specified sequences of FullLen+1..OneLen fields in the slave part only,  *)
-(*            over the kinds OneKinds.                                                       *)
+(* Domain = all P-specified sequences that fit a shape of C10Domain (per tier).              *)
 (* Every case carries P's ownership map; the lemmas about P are invariants of this machine.  *)
-EXTENDS Layout, Json
+EXTENDS C10Domain, Json
 
-CONSTANTS FullLen, OneLen, OneKinds
 VarN == 2                       \* bytes given to the variable-length field in the cases
 
 VARIABLES fs, run
@@ -22,9 +19,7 @@ Append1(ki, p) ==
      /\ run' = [own |-> Append(run.own, [p |-> p, b |-> pl.b, n |-> pl.n, bits |-> pl.bits]),
                 st |-> [run.st EXCEPT ![p] = pl.st], ok |-> TRUE,
                 rsShare |-> run.rsShare \/ (run.st[p].rs /\ PShares(run.st[p], k))]
-Next == \/ Len(fs) < FullLen /\ \E ki \in 1..NK, p \in Parts : Append1(ki, p)
-        \/ Len(fs) >= FullLen /\ Len(fs) < OneLen /\ (\A i \in 1..Len(fs) : fs[i].p = "s" /\ fs[i].k \in OneKinds)
-           /\ \E ki \in OneKinds : Append1(ki, "s")
+Next == \E ki \in 1..NK, p \in Parts : InShape(Append(fs, [k |-> ki, p |-> p])) /\ Append1(ki, p)
 
 PFixedOf(p) == IF run.st[p].closed THEN run.st[p].next - VarN ELSE run.st[p].next
 CaseRec ==
